@@ -339,5 +339,6 @@ package dnsdata
 //@ region funclit#1
 //@ flag skip frame
 //@ flag chanops abstract
+//@ requires scanner != nil
 //@ before send#0 assert[whole-copy] len(newLine) == len(line) && seqeq(newLine, line)
 //@ before send#0 assert[private] fresh(newLine) && len(line) >= 2
